@@ -22,7 +22,7 @@ func evalCfg(maxNodes int, fiv string, fuel int, extra ...string) string {
 		fmt.Sprintf("MaxNodes = %d", maxNodes), fmt.Sprintf("ForInVariants = \"%s\"", fiv),
 		"CallLimit = 50", fmt.Sprintf("Fuel = %d", fuel), "NextOutsidePattern = {\"ends-rule\"}",
 		"INVARIANTS TypeOK FrameBalance BaseAtRuleStart DepthBounded NoEscape OutcomeLegal SigConsumed Vec",
-		"PROPERTIES StopFreezesOutput DoneIsFinal"}
+		"PROPERTIES StopFreezesOutput DoneIsFinal RefinesFrames"}
 	return cfgText(append(lines, extra...)...)
 }
 
